@@ -141,6 +141,7 @@ def run_tlc(
             "java",
             "-XX:+UseParallelGC",
             f"-Xmx{heap}",
+            "-Xss512m",
             "-cp",
             _TLC_CP,
             "tlc2.TLC",
@@ -255,6 +256,30 @@ def validate_traces(
         }
     finally:
         cleanup(wd)
+
+
+def validate_traces_parallel(module: str, cfg: str, traces: List[Any], *, chunks: int = 8, min_chunk: int = 8, **kw: Any) -> Dict[str, Any]:
+    """Same contract as validate_traces, but the batch is split over several TLC processes
+    (each trace is validated independently of the others, so splitting is sound)."""
+    from concurrent.futures import ThreadPoolExecutor
+
+    n = len(traces)
+    k = max(1, min(chunks, n // max(1, min_chunk)))
+    if k <= 1:
+        return validate_traces(module, cfg, traces, **kw)
+    bounds = [(i * n // k, (i + 1) * n // k) for i in range(k)]
+    with ThreadPoolExecutor(max_workers=k) as ex:
+        parts = list(ex.map(lambda b: validate_traces(module, cfg, traces[b[0] : b[1]], **kw), bounds))
+    out: Dict[str, Any] = {"fails": [], "drifts": [], "n": 0, "ev": 0, "states": 0, "transitions": 0, "wall": 0.0}
+    for (lo, hi), r in zip(bounds, parts):
+        for f in r["fails"]:
+            out["fails"].append([f[0] + lo] + list(f[1:]))
+        for d in r.get("drifts", []):
+            out["drifts"].append([d[0] + lo] + list(d[1:]))
+        for key in ("n", "ev", "states", "transitions"):
+            out[key] += r[key]
+        out["wall"] = max(out["wall"], r["wall"])
+    return out
 
 
 def tlc_eval(module: str, cfg: str, cases: Any, *, timeout: int = 600, tag: str = "eval") -> Dict[str, Any]:
